@@ -3,6 +3,8 @@ package sender
 // C19 / C13: resolution of a stored receiver at dispatch, for every stored value.
 
 import (
+	"encoding/json"
+
 	"github.com/prometheus/client_golang/prometheus"
 	"github.com/resonatehq/resonate/internal/aio"
 	"github.com/resonatehq/resonate/internal/kernel/bus"
@@ -79,4 +81,57 @@ func VH_SN_Process() {
 	// completing the message answers the kernel exactly once
 	m.Done(true, nil)
 	vx.Assert(len(a.cqes) == 1 && a.cqes[0].Completion != nil && a.cqes[0].Completion.Sender.Success, "C19:done-answers-the-kernel-once")
+}
+
+// VH_SN_Resolve: where a well-formed stored receiver is delivered.
+func VH_SN_Resolve() {
+	a := &vhAIO{}
+	httpP, pollP := &vhPlugin{typ: "http", accept: true}, &vhPlugin{typ: "poll", accept: true}
+	targetData := vx.Bytes("target.data")
+	w := &SenderWorker{plugins: map[string]aio.Plugin{"http": httpP, "poll": pollP},
+		targets: map[string]*receiver.Recv{"default": {Type: "poll", Data: targetData}}, aio: a, metrics: metrics.New(prometheus.NewRegistry())}
+	logical := vx.Choose(2) == 0
+	name := vx.String("logical")
+	phys := &receiver.Recv{Type: vx.String("phys.type"), Data: vx.Bytes("phys.data")}
+	var recv []byte
+	if logical {
+		recv, _ = json.Marshal(&name)
+	} else {
+		recv, _ = json.Marshal(phys)
+	}
+	t := &task.Task{Id: vx.String("task.id"), Counter: vx.Int("task.counter"), Recv: recv, Mesg: &message.Mesg{Type: message.Invoke, Root: "r", Leaf: "r"}}
+	sub := &t_aio.SenderSubmission{Task: t, ClaimHref: "c", CompleteHref: "d", HeartbeatHref: "h"}
+	w.Process(&bus.SQE[t_aio.Submission, t_aio.Completion]{Id: "s", Submission: &t_aio.Submission{Kind: t_aio.Sender, Tags: map[string]string{}, Sender: sub}, Callback: func(*t_aio.Completion, error) {}})
+	failed := len(a.cqes) == 1
+	toHttp, toPoll := len(httpP.msgs) == 1, len(pollP.msgs) == 1
+	vx.Assert(vhB(failed)+vhB(toHttp)+vhB(toPoll) == 1, "C19:exactly-one-outcome-per-hand-off")
+	if !logical {
+		vx.Reach("physical")
+		vx.Assert(toHttp == (phys.Type == "http") && toPoll == (phys.Type == "poll"), "C19:physical-receiver-used-as-given")
+		if toHttp {
+			vx.Assert(vx.BytesEq(httpP.msgs[0].Data, phys.Data), "C19:physical-data-as-given")
+		}
+		if toPoll {
+			vx.Assert(vx.BytesEq(pollP.msgs[0].Data, phys.Data), "C19:physical-data-as-given")
+		}
+		return
+	}
+	vx.Reach("logical")
+	if name == "default" {
+		vx.Reach("configured-target")
+		vx.Assert(toPoll && vx.BytesEq(pollP.msgs[0].Data, targetData), "C19:logical-name-resolves-to-the-configured-target")
+		return
+	}
+	scheme := vx.UrlScheme(name)
+	isHttp := vx.UrlValid(name) && (scheme == "http" || scheme == "https")
+	isPoll := vx.UrlValid(name) && scheme == "poll"
+	vx.Assert(toHttp == isHttp && toPoll == isPoll, "C19:otherwise-resolved-by-url-scheme")
+	vx.Assert(failed == (!isHttp && !isPoll), "C19:unknown-address-is-a-failed-hand-off")
+}
+
+func vhB(b bool) int {
+	if b {
+		return 1
+	}
+	return 0
 }
